@@ -4,7 +4,7 @@ from simple import Simple
 
 S = Simple("C05", "hashmac", "hashmac.cpp",
            lambda tier: hb.quick_cfgs() if tier == "quick" else hb.five_backends(),
-           lambda tier: [("c05_kdf", 30000 if tier == "quick" else 300000, 100)],
+           lambda tier: [("c05_kdf", 20000 if tier == "quick" else 200000, 100)],
            "Case = (mode in hkdf/hkdfa one-shot, hkdf/hkdfa incremental with a generated list of request sizes crossing 8160, pbkdf2, pbkdf2_hmac, "
            "kdf/kdfa; key/salt/info/password 0..100 B; HKDF outlen in {0,1,31,32,33,8159,8160,8161,9000,random}; PBKDF2 count in {0,1,2,3,4..50,300}, "
            "outlen 0..100). Oracle: RFC 5869 / RFC 8018 over the reference HMAC and cXOF; one-shot HKDF returns -1 iff outlen > 8160; incremental "
